@@ -505,6 +505,57 @@ def codespeed_same_name_part(chk):
     chk.count("codespeed_sessions_runs_sharing_a_name", n)
 
 
+def codespeed_parallel_part(chk):
+    """incremental reporting under the parallel scheduler (non-exclusive runs): worker threads report completed runs
+    concurrently while a transmission is in flight; the 30 s clock is simulated, a transmission takes 50 ms"""
+    import time
+    import rebench.reporter as rep
+    import rebench.executor as rexec
+    rng = chk.rng
+    n = 4 if chk.tier == "quick" else 40
+    d = session.scratch_dir()
+    srv = CsServer()
+    o_time, o_send, o_cpu = rep.time, rep.CodespeedReporter._send_payload, rexec.cpu_count
+    clock = {"t": 0.0}
+
+    def fake_time():
+        clock["t"] += 31.0
+        return clock["t"]
+
+    def slow_send(self, payload):
+        time.sleep(0.05)
+        return o_send(self, payload)
+    rep.time, rep.CodespeedReporter._send_payload, rexec.cpu_count = fake_time, slow_send, (lambda: 16)
+    try:
+        for i in range(n):
+            del srv.got[:]
+            nb = rng.randint(6, 12)
+            raw = {"executors": {"E": {"path": "/x", "executable": "exe"}},
+                   "benchmark_suites": {"S": {"gauge_adapter": "RebenchLog", "command": "%(benchmark)s %(invocation)s", "invocations": 1,
+                                              "execute_exclusively": False, "benchmarks": ["B%d" % k for k in range(nb)]}},
+                   "experiments": {"X": {"executions": [{"E": {"suites": ["S"]}}]}},
+                   "reporting": {"codespeed": {"url": "http://127.0.0.1:%d/" % srv.port}}}
+
+            def script(bench, k, inv):
+                time.sleep(0.01)
+                return 0, "%s: iterations=1 runtime: %dus\n" % (bench, 1000 + 10 * int(bench[1:]))
+            ses = session.run_session(raw, script, os.path.join(d, "p%d.data" % i), argv=["--commit-id=abc", "--environment=env", "--project=p"])
+            case = dict(config=raw, scheduler="parallel (16 simulated cores)", reporting="incremental")
+            if isinstance(ses.result, str):
+                chk.violation("C18 session with Codespeed reporting ends without an exception", case, "no exception", ses.result + ": " + repr(ses.exc))
+                continue
+            names = sorted(r["benchmark"].split(" ")[0] for req in srv.got for r in req)
+            if names != sorted("B%d" % k for k in range(nb)):
+                chk.violation("C18 Codespeed receives exactly one result per run, also when worker threads of the parallel scheduler report concurrently",
+                              case, sorted("B%d" % k for k in range(nb)), names)
+            chk.case(("codespeed-parallel", i))
+    finally:
+        rep.time, rep.CodespeedReporter._send_payload, rexec.cpu_count = o_time, o_send, o_cpu
+        srv.close()
+        shutil.rmtree(d, ignore_errors=True)
+    chk.count("codespeed_sessions_parallel_scheduler", n)
+
+
 def run(chk):
     chk.prove(models=["Model/Report"])
     exprs, obs = table_part(chk)
@@ -531,6 +582,7 @@ def run(chk):
     sessions_part(chk)
     codespeed_part(chk)
     codespeed_same_name_part(chk)
+    codespeed_parallel_part(chk)
     chk.coverage["rule"] = ("run sets of size 1-12 (sizes evened out) compiled from configurations with 1-2 executors, 1-2 suites, "
                             "1-3 benchmarks, uniform or differing extra args, cores, input sizes (incl. integers), variable values, "
                             "tags; 0-5 samples per run or the same number for all; distinct = distinct (configuration, samples)")
